@@ -178,8 +178,11 @@ COLS = [((0, 1, 3), (5, 3, 0)), ((0, 2, 5), (1, 2, 3)), ((4, 2, 1), (5, 4, 0)), 
         ((0, 1, 2), (0, 1, 2)), ((5, 1, 0), (0, 4, 5)), ((2, 3, 5), (3, 2, 0)), ((0, 3, 4), (5, 2, 1))]
 API_LEVELS = [(0.5, 1.5, 4.0), (6.0, 2.0, -1.0, 3.0), (1.0,), (0.0, 5.0, 2.5),
               # one unit in the last place beyond / inside the possible end values (linear, double precision only)
-              tuple(float(np.nextafter(v, np.inf)) for v in (3.0, 4.0, 5.0)) + tuple(float(np.nextafter(v, -np.inf)) for v in (0.0, 1.0, 5.0))]
+              tuple(float(np.nextafter(v, np.inf)) for v in (3.0, 4.0, 5.0)) + tuple(float(np.nextafter(v, -np.inf)) for v in (0.0, 1.0, 5.0)),
+              # levels that happen to equal the axis coordinate of the data (which the data then carries)
+              (0.5, 1.5, 2.5)]
 ULP_LEVELS = 4
+COORD_LEVELS = 5
 
 
 _API_GRID = {}
@@ -204,13 +207,17 @@ def api_case(rec, ci, li, tkind, suffix, mask, method, layout, chunk, seed, prec
     levels = API_LEVELS[li]
     if li == ULP_LEVELS and (method != "linear" or prec not in ("f8", "shared")):
         return
+    if prec == "i8" and method != "linear":
+        return
     if prec == "shared":
         # one 1-D profile (without the extra dimension of the data) serves both columns
         profs = (profs[0], profs[0])
     phi = np.array([[1.0, 2.0, 4.0], [10.0 + seed % 2, -20.0, 40.0]])
     # the result is named input name + suffix, also when the input name already ends in that suffix (a chained transform)
     in_name = "temp" if (ci + li + (1 if mask else 0)) % 4 else "temp" + ("_transformed" if suffix is None else suffix)
-    da = xr.DataArray(phi.astype(np.float32) if prec == "mixed" else phi, dims=["x", "zc"], name=in_name)
+    da = xr.DataArray(phi.astype(np.float32) if prec == "mixed" else phi.astype(np.int64) if prec == "i8" else phi, dims=["x", "zc"], name=in_name)
+    if li == COORD_LEVELS:
+        da = da.assign_coords(zc=("zc", np.arange(nz) + 0.5))
     thv = np.array(profs, dtype=float)
     lvv = np.array(levels, dtype=float)
     if method == "log":
@@ -274,7 +281,7 @@ def api_case(rec, ci, li, tkind, suffix, mask, method, layout, chunk, seed, prec
                 continue
             e = float(sum(float(x) * p for x, p in zip(w, phi[c])))
             if np.isnan(got[c, k]) or not np.isclose(got[c, k], e, rtol=1e-9 if prec != "mixed" else 1e-5, atol=1e-9 if prec != "mixed" else 1e-5):
-                cls = "values" + (":mixed-precision" if prec == "mixed" else ":shared-profile" if prec == "shared" else "") + (":masked-on-end-value" if np.isnan(got[c, k]) else "") + (":decreasing-profile" if profs[c][0] > profs[c][-1] else "") + (":column-mixup" if c == 1 else "")
+                cls = "values" + (":mixed-precision" if prec == "mixed" else ":shared-profile" if prec == "shared" else ":integer-data" if prec == "i8" else "") + (":masked-on-end-value" if np.isnan(got[c, k]) else "") + (":decreasing-profile" if profs[c][0] > profs[c][-1] else "") + (":column-mixup" if c == 1 else "")
                 rec.violation("api", cls, dict(case, column=c, k=k), e, float(got[c, k]))
                 return
 
@@ -340,6 +347,8 @@ def api_cases(tier):
                             out.append((ci, li, tkind, suffix, mask, method, layout, chunk, "f8"))
                         if method == "linear":
                             out.append((ci, li, tkind, None, mask, method, "xz", None, "mixed"))
+                            # integer-typed data: interpolated values are not integers
+                            out.append((ci, li, tkind, None, mask, method, "zx" if k % 2 else "xz", None, "i8"))
                         if tkind != "ndim":
                             # a 1-D target_data shared by the columns, the axis dimension last and first
                             out.append((ci, li, tkind, None, mask, method, "xz", None, "shared"))
